@@ -297,6 +297,7 @@ def standard_flow(res: CheckResult, files: list[str], targets: list[str], concre
     reps = prove(files, targets, res.tier)
     for (f2, t2) in (more or []):
         reps += prove(f2, t2, res.tier)
+    res.extra["assumption_scan"] = scan_assumptions(sorted({f for f in files} | {f for (f2, _t) in (more or []) for f in f2}))
     res.func_reports = reps
     known = known if known is not None else load_known_findings(res.prop)
     for fr in reps:
@@ -365,6 +366,49 @@ def standard_flow(res: CheckResult, files: list[str], targets: list[str], concre
     if res.violations:
         res.undecided = []
     return res
+
+
+def scan_assumptions(contract_files: list[str]) -> dict:
+    """Mechanical scan of the contract files a check loads: every contract marked trusted / interface,
+    every may_raise clause, every A_ (assumed ghost-definition) clause and every assume(...) in a
+    lemma - so that no assumption is left out of the evidence by oversight."""
+    import ast
+    out = {"trusted_contracts": [], "interface_contracts": [], "may_raise": [], "assumed_clauses": [], "assume_calls": []}
+    for f in contract_files:
+        try:
+            tree = ast.parse(open(f).read())
+        except OSError:
+            continue
+        base = os.path.basename(f)
+        for st in tree.body:
+            if isinstance(st, ast.ClassDef):
+                target = None
+                for d in st.decorator_list:
+                    if isinstance(d, ast.Call) and getattr(d.func, "id", "") == "contract" and d.args and isinstance(d.args[0], ast.Constant):
+                        target = d.args[0].value
+                if target is None:
+                    continue
+                flags = {}
+                for x in st.body:
+                    if isinstance(x, ast.Assign) and isinstance(x.targets[0], ast.Name):
+                        try:
+                            flags[x.targets[0].id] = ast.literal_eval(x.value)
+                        except ValueError:
+                            pass
+                if flags.get("interface"):
+                    out["interface_contracts"].append(f"{target} ({base})")
+                elif flags.get("trusted"):
+                    out["trusted_contracts"].append(f"{target} ({base})")
+                if flags.get("may_raise"):
+                    out["may_raise"].append(f"{target}: {flags['may_raise']} ({base})")
+                for x in ast.walk(st):
+                    if isinstance(x, ast.Constant) and isinstance(x.value, str) and x.value.startswith("A_"):
+                        out["assumed_clauses"].append(f"{target}/{x.value} ({base})")
+            elif isinstance(st, ast.FunctionDef):
+                n = sum(1 for x in ast.walk(st) if isinstance(x, ast.Call) and getattr(x.func, "id", "") == "assume")
+                if n:
+                    out["assume_calls"].append(f"{st.name}: {n} assume(...) ({base})")
+    return {k: sorted(set(v)) for k, v in out.items()}
 
 
 def file_sha(path):
